@@ -490,4 +490,122 @@ theorem loss_zero_resets (st : GS K) (k j : Nat) :
     (loss st 0 k).mean k = 0 := by
   refine ⟨?_, ?_, ?_, ?_, ?_⟩ <;> by_cases hj : j = k <;> apply Cx.ext' <;> simp [loss, writeRowCol, hj]
 
+/-! ### natively applied multi-mode operations: `fromscovmat`/`fromsmean`, `apply_u` -/
+
+theorem loss_zero_N (st : GS K) (k i j : Nat) :
+    (loss st 0 k).N i j = if i = k ∨ j = k then 0 else st.N i j := by
+  by_cases hi : i = k <;> by_cases hj : j = k <;> apply Cx.ext' <;> simp [loss, writeRowCol, hi, hj]
+
+theorem loss_zero_M (st : GS K) (k i j : Nat) :
+    (loss st 0 k).M i j = if i = k ∨ j = k then 0 else st.M i j := by
+  by_cases hi : i = k <;> by_cases hj : j = k <;> apply Cx.ext' <;> simp [loss, writeRowCol, hi, hj]
+
+theorem loss_zero_mean (st : GS K) (k i : Nat) :
+    (loss st 0 k).mean i = if i = k then 0 else st.mean i := by
+  by_cases hi : i = k <;> apply Cx.ext' <;> simp [loss, writeRowCol, hi]
+
+theorem foldl_loss_N (modes : List Nat) (st : GS K) (i j : Nat) :
+    (modes.foldl (fun s m => loss s 0 m) st).N i j = if i ∈ modes ∨ j ∈ modes then 0 else st.N i j := by
+  induction modes generalizing st with
+  | nil => simp
+  | cons m ms ih =>
+    simp only [List.foldl_cons, ih, loss_zero_N, List.mem_cons]
+    by_cases h1 : i ∈ ms ∨ j ∈ ms
+    · have : (i = m ∨ i ∈ ms) ∨ (j = m ∨ j ∈ ms) := by rcases h1 with h | h <;> simp [h]
+      simp [h1, this]
+    · simp only [h1, if_false]
+      by_cases h2 : i = m ∨ j = m
+      · have : (i = m ∨ i ∈ ms) ∨ (j = m ∨ j ∈ ms) := by rcases h2 with h | h <;> simp [h]
+        simp [h2, this]
+      · have : ¬ ((i = m ∨ i ∈ ms) ∨ (j = m ∨ j ∈ ms)) := by
+          simp only [not_or] at h1 h2 ⊢; exact ⟨⟨h2.1, h1.1⟩, ⟨h2.2, h1.2⟩⟩
+        simp [h2, this]
+
+theorem foldl_loss_M (modes : List Nat) (st : GS K) (i j : Nat) :
+    (modes.foldl (fun s m => loss s 0 m) st).M i j = if i ∈ modes ∨ j ∈ modes then 0 else st.M i j := by
+  induction modes generalizing st with
+  | nil => simp
+  | cons m ms ih =>
+    simp only [List.foldl_cons, ih, loss_zero_M, List.mem_cons]
+    by_cases h1 : i ∈ ms ∨ j ∈ ms
+    · have : (i = m ∨ i ∈ ms) ∨ (j = m ∨ j ∈ ms) := by rcases h1 with h | h <;> simp [h]
+      simp [h1, this]
+    · simp only [h1, if_false]
+      by_cases h2 : i = m ∨ j = m
+      · have : (i = m ∨ i ∈ ms) ∨ (j = m ∨ j ∈ ms) := by rcases h2 with h | h <;> simp [h]
+        simp [h2, this]
+      · have : ¬ ((i = m ∨ i ∈ ms) ∨ (j = m ∨ j ∈ ms)) := by
+          simp only [not_or] at h1 h2 ⊢; exact ⟨⟨h2.1, h1.1⟩, ⟨h2.2, h1.2⟩⟩
+        simp [h2, this]
+
+theorem foldl_loss_mean (modes : List Nat) (st : GS K) (i : Nat) :
+    (modes.foldl (fun s m => loss s 0 m) st).mean i = if i ∈ modes then 0 else st.mean i := by
+  induction modes generalizing st with
+  | nil => simp
+  | cons m ms ih =>
+    simp only [List.foldl_cons, ih, loss_zero_mean, List.mem_cons]
+    by_cases h1 : i ∈ ms <;> by_cases h2 : i = m <;> simp [h1, h2]
+
+theorem posIn_some {modes : List Nat} {i a : Nat} (h : posIn modes i = some a) :
+    i ∈ modes ∧ a = modes.idxOf i := by
+  unfold posIn at h
+  split at h
+  · rename_i hc; exact ⟨by simpa using hc, by cases h; rfl⟩
+  · cases h
+
+theorem posIn_none {modes : List Nat} {i : Nat} (h : ¬ i ∈ modes) : posIn modes i = none := by
+  simp [posIn, h]
+
+theorem posIn_getElem {modes : List Nat} (hnd : modes.Nodup) {a : Nat} (ha : a < modes.length) :
+    posIn modes modes[a] = some a := by
+  simp [posIn, List.getElem_mem ha, hnd.idxOf_getElem a ha]
+
+/-- **`prepare_gaussian_state` post-state**: on the listed modes, in the listed order, the quadrature
+covariance and means are exactly the given `(V, r)` (for symmetric `V_xx`, `V_pp`) -/
+theorem fromCov_poststate (st : GS K) (quarter half : K) (hq : quarter * (1 + 1 + 1 + 1) = 1)
+    (hh : half * (1 + 1) = 1) (modes : List Nat) (hnd : modes.Nodup)
+    (A B C : Nat → Nat → K) (rx rp : Nat → K) (hA : ∀ a b, A a b = A b a) (hC : ∀ a b, C a b = C b a)
+    {a b : Nat} (ha : a < modes.length) (hb : b < modes.length) :
+    let st' := fromCov st quarter half modes A B C rx rp
+    Vxx st' modes[a] modes[b] = A a b ∧ Vxp st' modes[a] modes[b] = B a b ∧
+    Vpp st' modes[a] modes[b] = C a b ∧ meanX st' modes[a] = rx a ∧ meanP st' modes[a] = rp a := by
+  intro st'
+  have pa := posIn_getElem hnd ha
+  have pb := posIn_getElem hnd hb
+  have hab : modes[a] = modes[b] ↔ a = b := List.getElem_inj hnd
+  refine ⟨?_, ?_, ?_, ?_, ?_⟩
+  · simp only [st', Vxx, fromCov, pa, pb, hab]
+    by_cases h : a = b
+    · subst h; simp; grind
+    · simp [h, Ne.symm h]; have := hA a b; have := hC a b; grind
+  · simp only [st', Vxp, fromCov, pa, pb]
+    simp; grind
+  · simp only [st', Vpp, fromCov, pa, pb, hab]
+    by_cases h : a = b
+    · subst h; simp; grind
+    · simp [h, Ne.symm h]; have := hA a b; have := hC a b; grind
+  · simp only [st', meanX, fromCov, pa]; grind
+  · simp only [st', meanP, fromCov, pa]; grind
+
+/-- … the prepared modes are uncorrelated with every other mode … -/
+theorem fromCov_uncorrelated (st : GS K) (quarter half : K) (modes : List Nat)
+    (A B C : Nat → Nat → K) (rx rp : Nat → K) {i j : Nat} (hi : i ∈ modes) (hj : ¬ j ∈ modes) :
+    let st' := fromCov st quarter half modes A B C rx rp
+    st'.N i j = 0 ∧ st'.N j i = 0 ∧ st'.M i j = 0 ∧ st'.M j i = 0 := by
+  intro st'
+  have pj := posIn_none hj
+  refine ⟨?_, ?_, ?_, ?_⟩ <;> simp only [st', fromCov, pj]
+  · cases posIn modes i <;> simp [foldl_loss_N, hi]
+  · simp [foldl_loss_N, hi]
+  · cases posIn modes i <;> simp [foldl_loss_M, hi]
+  · simp [foldl_loss_M, hi]
+
+/-- … and all other modes keep their data -/
+theorem fromCov_local (st : GS K) (quarter half : K) (modes : List Nat)
+    (A B C : Nat → Nat → K) (rx rp : Nat → K) :
+    AgreeOff modes (fromCov st quarter half modes A B C rx rp) st := by
+  refine ⟨fun i j hi hj => ?_, fun i hi => ?_⟩
+  · simp [fromCov, posIn_none hi, foldl_loss_N, foldl_loss_M, hi, hj]
+  · simp [fromCov, posIn_none hi, foldl_loss_mean, hi]
+
 end SFV.Gauss
